@@ -436,7 +436,7 @@ def helper_shape(h):
   #  -- except a memoising decorator on a function that takes no instance (module level / static): its value is that of the body
   decs_ = [norm(d_).split('(')[0].split('.')[-1] for d_ in getattr(h.node, 'decorator_list', [])]
   plain_ = h.cls is None or 'staticmethod' in decs_
-  if any(d_ not in ('staticmethod', 'classmethod') and not (d_ in ('lru_cache', 'cache') and plain_) for d_ in decs_):
+  if any(d_ not in ('staticmethod', 'classmethod') and not (d_ in ('lru_cache', 'cache') and plain_) and not (d_ == 'property' and h.kind == 'getter') for d_ in decs_):
     return None
   a = h.node.args
   if a.vararg or (a.kwarg and not _kwarg_only_forwarded(h)):
@@ -477,7 +477,7 @@ def _bind(h, call, selfexpr, tag, stmts, result, taken=None):
   params = [x.arg for x in a.posonlyargs + a.args]
   kwonly = [x.arg for x in a.kwonlyargs]
   binding = {}
-  if h.kind == 'method':
+  if h.kind in ('method', 'getter'):
     if selfexpr is None or not params:
       return None
     binding[params[0]] = selfexpr
@@ -540,7 +540,7 @@ def _bind(h, call, selfexpr, tag, stmts, result, taken=None):
       if isinstance(x, ast.Name) and isinstance(x.ctx, ast.Load):
         uses[x.id] = uses.get(x.id, 0) + 1
   for p in list(binding):
-    if h.kind in ('method', 'classmethod') and p == (a.posonlyargs + a.args)[0].arg:
+    if h.kind in ('method', 'classmethod', 'getter') and p == (a.posonlyargs + a.args)[0].arg:
       continue
     if p in assigned or (not _simple_arg(binding[p]) and (stmts or uses.get(p, 0) > 1)):
       new = p if (taken is not None and p not in taken) else '%s__%s' % (p, tag)
@@ -712,6 +712,26 @@ class _Flattener:
         return x
       inner = comp or isinstance(x, (ast.ListComp, ast.SetComp, ast.DictComp, ast.GeneratorExp, ast.Lambda, ast.IfExp, ast.BoolOp))
       x = dataflow._map_children(x, lambda c: walk(c, inner))
+      if isinstance(x, ast.Attribute) and isinstance(x.ctx, ast.Load) and isinstance(x.value, ast.Name) and info.cls is not None \
+          and x.attr in info.cls.getters and x.attr not in info.cls.setters:
+        # self._view  where _view is a helper property (not an anchor) whose body is a single return: the returned expression
+        selfn_ = None
+        top_ = info
+        while top_ is not None:
+          if top_.kind in ('method', 'getter', 'setter') and top_.params:
+            selfn_ = top_.params[0]
+          top_ = top_.outer
+        h_ = info.cls.getters[x.attr]
+        if selfn_ is not None and x.value.id == selfn_ and self.is_helper(h_) and h_.node is not info.node:
+          shape_ = helper_shape(h_)
+          if shape_ and shape_[0] == 'expr' and not shape_[1]:
+            _counter[0] += 1
+            call_ = ast.Call(func=ast.Attribute(value=ast.Name(id=selfn_, ctx=ast.Load()), attr=x.attr, ctx=ast.Load()), args=[], keywords=[])
+            b_ = _bind(h_, call_, ast.Name(id=selfn_, ctx=ast.Load()), 'e%d' % _counter[0], [], shape_[2], self.taken)
+            if b_ is not None and not b_[0]:
+              self.changed = True
+              self.used.append(h_.qualname)
+              return b_[2]
       if isinstance(x, ast.Call):
         # spread *helper(...) star-arguments of tuple-returning helpers
         new_args = []
